@@ -119,9 +119,17 @@ func ArgRole(p *core.Prog, r *core.Report) {
 					} else if aj != "" && roleOf(an) != "" && roleOf(aj) != "" && roleOf(an) != roleOf(aj) && roleOf(an) == roleOf(names[j]) && roleOf(aj) == roleOf(pn) {
 						// the same by role: the location of the value (path / name) and the place of the parameter (in)
 						problems = append(problems, fmt.Sprintf("the location %q and the place %q change places: they are handed over as (%s, %s)", an+"/"+aj, roleOf(an)+"/"+roleOf(aj), pn, names[j]))
-					} else if aj != "" && canonRole(an) != canonRole(pn) && canonRole(an) == canonRole(names[j]) && canonRole(aj) != canonRole(names[j]) {
-						// an argument that bears the name of another parameter of the same type, whose own slot is filled
-						// by something else: p.param.Format handed over as `in` while `format` receives p.param.In
+					}
+				}
+				// an argument that bears the name of another parameter of the same type, whose own slot is filled by
+				// something else: p.param.Format handed over as `in` while `format` receives p.param.In
+				looseNames := p.InSubject(g) && strings.HasSuffix(g.Name(), "Msg") // the message helpers name their parameters loosely
+				for j := 0; !looseNames && j < sig.Params().Len() && j+off < len(args); j++ {
+					if j == k || sig.Params().At(j).Type().String() != pt {
+						continue
+					}
+					aj := srcName(args[j+off])
+					if canonRole(an) != canonRole(pn) && canonRole(an) == canonRole(names[j]) && canonRole(aj) != canonRole(names[j]) {
 						problems = append(problems, fmt.Sprintf("argument %q is handed over as %q while the parameter %q of the same type receives %q", an, pn, names[j], aj))
 					}
 				}
